@@ -56,7 +56,11 @@ impl MessageCursor {
 pub(crate) struct WebsocketStreamWrapper<T> where T : Read + Write {
     stream: WebSocket<T>,
     current_read_message: Option<MessageCursor>,
-    final_error: Option<tungstenite::error::Error>
+    final_error: Option<tungstenite::error::Error>,
+
+    // length of a message that has been queued in the websocket but whose write was reported as
+    // WouldBlock because it could not be flushed yet
+    pending_write_length: Option<usize>
 }
 
 impl<T> WebsocketStreamWrapper<T> where T : Read + Write {
@@ -64,7 +68,8 @@ impl<T> WebsocketStreamWrapper<T> where T : Read + Write {
         WebsocketStreamWrapper {
             stream,
             current_read_message: None,
-            final_error: None
+            final_error: None,
+            pending_write_length: None
         }
     }
 }
@@ -120,6 +125,20 @@ impl<T> Read for WebsocketStreamWrapper<T> where T : Read + Write {
 
 impl<T> Write for WebsocketStreamWrapper<T> where T : Read + Write {
     fn write(&mut self, buf: &[u8]) -> std::io::Result<usize> {
+        // A previous call queued a message but could not flush it.  The caller retries with the same
+        // bytes; queuing them again would duplicate them on the wire, so only finish the flush.
+        if let Some(pending_length) = self.pending_write_length {
+            return match self.stream.flush() {
+                Ok(()) => {
+                    self.pending_write_length = None;
+                    Ok(pending_length)
+                }
+                Err(err) => {
+                    Err(map_tungstenite_error_to_io_error(err))
+                }
+            };
+        }
+
         let message = Message::Binary(buf.to_vec());
         let write_result = self.stream.send(message);
 
@@ -128,6 +147,11 @@ impl<T> Write for WebsocketStreamWrapper<T> where T : Read + Write {
                 Ok(buf.len())
             }
             Err(err) => {
+                // send() queues the message before flushing: only WriteBufferFull means not queued
+                if is_tungstenite_error_would_block(&err) {
+                    self.pending_write_length = Some(buf.len());
+                }
+
                 Err(map_tungstenite_error_to_io_error(err))
             }
         }
